@@ -135,9 +135,6 @@ func Apply(dip *inode.Inode, op *fstxn.FsTxn, start uint64,
 	var eof bool = true
 	var ip *inode.Inode
 	var begin = uint64(start)
-	if begin != 0 {
-		begin += DIRENTSZ
-	}
 	// TODO: arbitrary estimate of constant XDR overhead
 	var n uint64 = uint64(64)
 	var dirbytes uint64 = uint64(0)
@@ -160,7 +157,7 @@ func Apply(dip *inode.Inode, op *fstxn.FsTxn, start uint64,
 
 		}
 
-		f(ip, de.name, de.inum, off)
+		f(ip, de.name, de.inum, off+DIRENTSZ)
 
 		// Release inode early, if this trans didn't own it before.
 		if !own {
@@ -184,9 +181,6 @@ func ApplyEnts(dip *inode.Inode, op *fstxn.FsTxn, start uint64, count uint64,
 	f func(string, common.Inum, uint64)) bool {
 	var eof bool = true
 	var begin = uint64(start)
-	if begin != 0 {
-		begin += DIRENTSZ
-	}
 	// TODO: this is supposed to track the size of the XDR-encoded reply in
 	// bytes, and we somewhat arbitrarily use 64 as the constant overhead
 	var n uint64 = uint64(64)
@@ -198,7 +192,7 @@ func ApplyEnts(dip *inode.Inode, op *fstxn.FsTxn, start uint64, count uint64,
 			off = off + DIRENTSZ
 			continue
 		}
-		f(de.name, de.inum, off)
+		f(de.name, de.inum, off+DIRENTSZ)
 
 		off = off + DIRENTSZ
 		// TODO: estimate of XDR overhead, 16-byte file id, name, cookie, and
